@@ -45,7 +45,7 @@ type Gen struct {
 }
 
 var collNamePool = []string{"a", "ab", "coll", "c:", "d:", "i:x", "x y", "naïve", "c.d", "a:b", "日本", "t", "", "coll:", "c:a", "\x00", "A", "a-rather-long-collection-name-0123456789", "a\xff", "log\xfe", "log\xff", "caf\xe9", "log", "log ", " log", "a\n", "\ta"}
-var fieldPool = []string{"a", "ab", "b", "x", "xy", "n", "s", "arr", "a_rather_long_field_name_for_an_index"}
+var fieldPool = []string{"a", "ab", "b", "x", "xy", "n", "s", "arr", "a_rather_long_field_name_for_an_index", "rate%", "x%v"}
 
 func i64(x int64) interface{}   { return x }
 func u64(x uint64) interface{}  { return x }
@@ -71,6 +71,7 @@ func safePool() []interface{} {
 		u64(0), u64(1), u64(5), u64(1 << 53),
 		f64(0), f64(math.Copysign(0, -1)), f64(0.5), f64(1), f64(1.5), f64(-1.5), f64(2), f64(3), f64(5e-324), f64(1e-310), f64(1e300), f64(-1e300),
 		"", "a", "ab", "abc", "b", "a\x00", "a\x00b", "a\xff", "\xff\xfe", "é", "$a", "A", "10",
+		"100%", "%s%d%", "2021-03-04T05:06:07.120Z", "2021-03-04T05:06:07+00:00", // text that looks like a format or like a time is text
 		tm(0, 0, 0, "UTC"), tm(946684800, 0, 0, "UTC"), tm(946684800, 0, 7200, "EET"), tm(946684800, 1, 0, "UTC"), tm(946684800, 999999999, -3600*5, "EST"), tm(1700000000, 123456789, 19800, "IST"),
 		arr(), arr(i64(1)), arr(i64(1), i64(2)), arr("a"), arr(i64(1), "a", nil), arr(arr(i64(1))), arr(f64(1)),
 		arr(tm(946684800, 5, 3600, "CET")), arr(obj("k", tm(946684800, 6, -7200, "X"))), arr(obj("k", arr(tm(0, 0, 0, "UTC")))),
@@ -116,6 +117,7 @@ func jsonSafePool() []interface{} {
 		u64(0), u64(5), u64(1 << 53),
 		f64(0), f64(0.5), f64(1.5), f64(-1.5), f64(1e300), f64(5e-324),
 		"", "a", "ab", "b", "é", "$a", "a\x00", "日",
+		"100%", "%s%d%", "2021-03-04T05:06:07.120Z", "2021-03-04T05:06:07+00:00",
 		tm(0, 0, 0, "UTC"), tm(946684800, 0, 7200, "EET"), tm(946684800, 999999999, -3600*5, "EST"),
 		arr(), arr(i64(1), i64(2)), arr("a", nil), arr(tm(946684800, 5, 3600, "CET")), arr(obj("k", tm(946684800, 6, -7200, "X"))),
 		obj(), obj("k", i64(1)), obj("a", i64(1), "b", "x"), obj("k", obj("j", tm(1700000000, 1, 60, "Z1"))),
@@ -134,7 +136,7 @@ func extremePool() []interface{} {
 
 var numKinds = []string{"", "", "", "int", "int8", "int16", "int32", "int64", "uint", "uint8", "uint16", "uint32", "uint64", "float32"}
 
-var likePatterns = []string{"^a", "a", "b$", "^$", ".", "^a.*c$", "[ab]+", "\\x00", "^\\$"}
+var likePatterns = []string{"^a", "a", "b$", "^$", ".", "^a.*c$", "[ab]+", "\\x00", "^\\$", "^ab?", "^ab*c", "^a|b", "^a{0,1}b", "^(a|b)$", "^ab?$|^10"}
 var predNames = []string{"isString", "isNumber", "has", "absent", "isNil", "true", "false"}
 
 // DrawCfg draws a swarm configuration.
@@ -283,6 +285,7 @@ func DrawCfg(r *rng.R, mode, faults string) GenCfg {
 		w["Export"], w["Import"] = 8, 10
 		w["CreateIndex"] = 4
 	case "nasty":
+		w["Export"], w["Import"] = 1, 3 // mostly ill-formed files: whatever an import does with them, it returns
 		w["FindAll"] = 24
 		w["Derived"] = 8
 		w["CreateIndex"] = 10
@@ -739,6 +742,7 @@ func (g *Gen) Next(m *model.DB) Op {
 	}
 	op := g.make(k, m)
 	g.twinify(&op)
+	g.denormalise(&op)
 	g.decorate(&op)
 	return op
 }
@@ -746,6 +750,20 @@ func (g *Gen) Next(m *model.DB) Op {
 // abandonable: the write operations (each is one store transaction).
 var abandonable = map[string]bool{"Insert": true, "InsertOne": true, "Save": true, "UpdateById": true, "ReplaceById": true, "Update": true, "UpdateFunc": true,
 	"Delete": true, "DeleteById": true, "CreateCollection": true, "DropCollection": true, "CreateIndex": true, "DropIndex": true, "Import": true, "CreateCollectionByQuery": true}
+
+// denormalise marks some writes as passing narrow Go number types (int, int8,
+// float32 ...) instead of the canonical ones: the stored result must be the same.
+func (g *Gen) denormalise(op *Op) {
+	if op.Note != "" || len(op.Colls) > 0 {
+		return
+	}
+	switch op.K {
+	case "Update", "UpdateFunc", "UpdateById":
+		if len(op.Upd) > 0 && op.UpdStyle != "nil" && g.R.Chance(0.12) {
+			op.Note = "narrow"
+		}
+	}
+}
 
 func (g *Gen) decorate(op *Op) {
 	if len(op.Colls) > 0 {
